@@ -102,7 +102,9 @@ def memo_may_write(c, comp, ref):
     return None
 
 
-TOUCH = {'sets', 'fd', 'fv'}
+# components in which a caller can observe a change or an allocation (the labelling builds graph objects and
+# pair lists on the way; enforced against the bodies: obligations `declared:untouched:*`)
+TOUCH = {'sets', 'fd', 'fv', 'dd', 'dv', 'fld__next', 'rels'}
 PARAMS = [('kripke', 'kripke'), ('formula', 'F'), ('L', 'fdict')]
 
 
@@ -452,7 +454,7 @@ def install(E):
         'modelcheck', 'ctl', [('kripke', 'kripke'), ('formula', 'F'), ('parser', 'none'), ('F', 'none')], ret='set',
         requires=mc_requires, ensures=mc_ensures,
         raises={'TypeError': lambda c: z3.Not(is_tag(c.formula.t, *STATE_TAGS))},
-        touches={'sets', 'fd', 'fv'}, hints={'dict_kind_default': 'fdict'}, owner='C01',
+        touches=set(TOUCH), hints={'dict_kind_default': 'fdict'}, owner='C01',
         note='object formulas, F=None; the text/parser leg and the fairness leg are bounded only'))
 
     # -- modelcheck with fairness constraints: FRAME and SAFETY only (C07/C15/C19) --------------------
